@@ -144,11 +144,13 @@ func ruleDateFall(p *Prog, r *Report) {
 		return c, lay, ok
 	}
 	nParse, nPlain := 0, 0
+	var plainBlocks []*ssa.BasicBlock
 	eachInstr(f, func(_ *ssa.BasicBlock, _ int, in ssa.Instruction) {
 		if c, ok := in.(*ssa.Call); ok && isCallTo(&c.Call, "time.Parse") {
 			nParse++
 			if lay, ok := constString(c.Call.Args[0]); ok && lay == plain {
 				nPlain++
+				plainBlocks = append(plainBlocks, c.Block())
 			} else if !ok {
 				nParse = -1000
 			}
@@ -171,6 +173,16 @@ func ruleDateFall(p *Prog, r *Report) {
 		}
 		nRet++
 		ev, eb := spilledResult(rt.Results[1], b)
+		// the plain layout has been tried on every path to this return: its call dominates the return
+		tried := false
+		for _, pb := range plainBlocks {
+			if pb != b && pb.Dominates(b) {
+				tried = true
+			}
+		}
+		if tried {
+			return
+		}
 		// direct result of the plain parse
 		var okVal func(v ssa.Value, at *ssa.BasicBlock, d int) bool
 		okVal = func(v ssa.Value, at *ssa.BasicBlock, d int) bool {
